@@ -139,3 +139,81 @@ TEXT.update({
         "technique": "runtime monitoring: write/read differential against independent parsers and writers",
     },
 })
+
+TEXT.update({
+    "C05": {
+        "level": "Real Calculator runs on generated file sets (all nine systems, 4-12 volumes, 1-8 q-points, 1-10 atoms, with/without "
+                 "lattice block, needed/complete component sets, every interpolator, YAML/JSON settings, requested pressures placed "
+                 "inside the computed range) are compared at every grid point of every key, isothermal and adiabatic, with a "
+                 "reference computed from the files by the oracle: own parsers, own GPa conversion, own least-squares cubic of V*c "
+                 "in Eulerian strain, symmetry fill by projection on the Laue-invariant subspace, own static-pressure fit with the "
+                 "QHA layer's discrete derivative, strain fractions (tight against the discrete log-derivative of the oracle's own "
+                 "axis fit, loose against the analytic one), non-shear parts from numerical derivatives of F_ph, shear parts by the "
+                 "oracle's own rotation recipe on full index tuples using the observed (validated) frames. The C01/C02/C04/C07 "
+                 "monitors stay attached; a metamorphic run with the static table doubled checks that total - static does not move.",
+        "note": "P(T,V), C_V(T,V) and the grids are taken from the QHA layer as the property says. Spectra are exact for the chosen interpolator (power law, or polynomial up to the lsq order); the measured interpolation error inflates the phonon tolerance.",
+        "technique": "runtime monitoring: end-to-end differential check of the real pipeline against an independent reference pipeline, with hooks observing intermediate quantities",
+    },
+    "C06": {
+        "level": "A hook on the real CijPressureBaseInterface.v2p records (input field, output field) of every conversion while every "
+                 "pressure-base quantity (each modulus S/T, six averages, both velocities, compliances, attribute-style names, the "
+                 "pressure field itself, V(T,P)) is read on real runs; each is compared at every (T,P) with the oracle's own "
+                 "bracket search + Neville cubic on the same isotherm (1e-8), the input field must be the volume-base quantity, "
+                 "v2p(P) must return the requested pressures, V(T,P) must decrease and satisfy P(T,V(T,P))=P. Pressure grids that "
+                 "overshoot the reachable range by 1 %-300 % must raise ValueError before any conversion; grids inside by 1 %-30 % "
+                 "must be accepted.",
+        "note": "Isotherms must be monotonic (checked; otherwise the run is skipped and counted). Stencils touching non-finite inputs (adiabatic values where C_V<=0) are not judged.",
+        "technique": "runtime monitoring: call-level hook on the real conversion + independent interpolation oracle; refusal/acceptance sweep",
+    },
+    "C13": {
+        "level": "Metamorphic pairs through the real Calculator: q-point order with weights, mode order within each q-point (optical "
+                 "modes only at Gamma), common weight factor over six decades, static columns permuted/upper-cased/re-spelled, "
+                 "static and lattice rows permuted, all combined, and volume blocks reversed/shuffled; every modulus (S and T), the "
+                 "averages and velocities in both bases, V(T,P), the volume grid and P(T,V) must agree with the baseline to 1e-8, "
+                 "and for re-ordered volume blocks the outcome must be equal results or an error. The parsed inputs are compared to "
+                 "make sure the re-presentation reached the code. Includes the shipped akimotoite example re-presented.",
+        "note": "All seven interpolators are cycled; data are synthetic except akimotoite.",
+        "technique": "runtime monitoring: metamorphic re-presentation runs of the real pipeline",
+    },
+    "C14": {
+        "level": "Subprocess histories: the real `cij run` under different PYTHONHASHSEED values and in working directories seeded "
+                 "with files/directories named like crystal systems, packaged data files and inputs must give byte-identical "
+                 "output files (sha256) and the same file set as a fresh canonical process; an audit hook (sys.addaudithook) logs "
+                 "every open so that reads of unrelated cwd entries or of unnamed files in the data directory, and writes of "
+                 "undocumented names, are reported. In-process histories: random operation sequences over two calculators on "
+                 "different data sets (construct, read any of ~60 properties, re-read, write_output once or twice, construct a "
+                 "third, fill a table twice) with every value/file compared bit-wise with a fresh-process digest; module-level "
+                 "state snapshotted. Idempotence of fill_cij / apply_symetry_on_elast_data on all nine systems.",
+        "note": "Interleavings are sequential (the code has no threads). Number of distinct lazy-evaluation orders observed is reported.",
+        "technique": "runtime monitoring: process-level audit hook + recorded operation histories checked against fresh-process digests",
+    },
+    "C15": {
+        "level": "write_output() of real runs into a scratch cwd with an output section covering every keyword (aliases rotated) of "
+                 "both bases; every file is parsed by the oracle's own reader: file set = documented pattern x available components, "
+                 "row labels T_MIN+k DT (k<NT), column labels P_MIN+j DELTA_P GPa or grid volumes in A^3, cells = in-memory arrays x "
+                 "own unit factors (1e-9), adiabatic vs isothermal decided where they differ, remaining aliases give byte-identical "
+                 "files, user fname/unit overrides honoured, and `cij run` in a subprocess reproduces the same bytes.",
+        "note": "The documented table is transcribed in the oracle (not read from the packaged YAML).",
+        "technique": "runtime monitoring: written files re-read by an independent parser and compared with hooked in-memory results",
+    },
+    "C18": {
+        "level": "Real `cij run-static` invocations (CliRunner, some subprocess) over modes none/volume/pressure x grid sizes "
+                 "11/51/201/401 x with/without table, crystal system, --cellmass, --delta-p-sample on generated BM3 data; stdout is "
+                 "parsed and each row is related to the oracle's own second-order finite-strain fit: P = -dE_fit/dV (tolerance = "
+                 "discretisation bound of the command's numerical derivative computed from the oracle's third derivative, first-"
+                 "order at the two end rows), F = fit at the reported V (input energies in mode none), units, density, moduli = own "
+                 "fit at the row volume (symmetry-filled), VRH and v_p/v_s/v_phi as in C07, pressure rows at the requested values.",
+        "note": "pandas prints six decimals; tolerances include that and its propagation through dc/dV.",
+        "technique": "runtime monitoring: parsed command output vs independent EoS/elasticity oracle",
+    },
+    "C19": {
+        "level": "Real `cij extract` / `cij extract-geotherm` run in scratch directories holding tables of known smooth f(T,P) "
+                 "(pandas layout and the oracle's own layout, with distractor files) and tables written by the real writer: the "
+                 "printed row/column must be the nearest by the oracle's own search (on-grid, between, below and above range), "
+                 "labelled by the other coordinate, columns in request order; along geotherms node values must equal the table, "
+                 "own columns pass through, and the off-node error must at least halve per 2x refinement (three levels) and end "
+                 "below 1e-3.",
+        "note": "Convergence is restated as bounded progress over three refinement levels (an unbounded 'converges' cannot be observed).",
+        "technique": "runtime monitoring: command output vs generating function; bounded-progress refinement check",
+    },
+})
